@@ -1,9 +1,153 @@
-(* C15 -- a DataFrame's schema, column list and rows always agree. *)
+(* C15 -- a DataFrame's schema, column list and rows always agree.
+
+   wf f :=  schema.names (the StructType.names list) = columns ([fld.name for fld in schema.fields])
+         /\ every collected Row has __fields__ = columns and exactly that many values.
+   Duplicate column names are allowed (sequence equality).  Every statement is about the model
+   of coq/Model/Schema.v, for ALL frames / arguments / programs; only statements here, each closed by
+   [exact] of a lemma from PV.Proofs.Schema*.
+
+   Reading: "tables" handed to createDataFrame are rectangular.  With an explicit StructType the
+   implementation verifies this itself (no hypothesis below); with a list of column names it does
+   not, so [C15_wf_create_names] carries [rectangular data] and [create_ragged_not_wf] shows the
+   hypothesis is needed (outside the property's quantifier, see design.d/C15.md). *)
 From Coq Require Import String ZArith NArith List Bool.
-Require Import PV.Base.Val PV.Model.Schema PV.Proofs.Schema.
+Require Import PV.Base.Val PV.Model.Schema PV.Proofs.Schema PV.Proofs.SchemaOps PV.Proofs.SchemaChain.
 Import ListNotations.
 Open Scope Z_scope.
+Close Scope string_scope.
 
+(* ---- createDataFrame, range ---- *)
+Theorem C15_wf_create_struct : forall names data p c,
+  create true names data = Ok p -> wf (fst (finish c p)).
+Proof. exact frame_create_struct. Qed.
+Theorem C15_wf_create_names : forall names data p c,
+  rectangular data -> create false names data = Ok p -> wf (fst (finish c p)).
+Proof. exact frame_create_names. Qed.
+Theorem C15_wf_range : forall a b s p c, range_frame a b s = Ok p -> wf (fst (finish c p)).
+Proof. exact frame_range. Qed.
+
+(* ---- every operation preserves agreement ---- *)
+Theorem C15_wf_preserved_select : forall f cols p c, wf f -> select f cols = Ok p -> wf (fst (finish c p)).
+Proof. exact frame_select. Qed.
+Theorem C15_wf_preserved_withColumn : forall f n e p c, wf f -> with_column f n e = Ok p -> wf (fst (finish c p)).
+Proof. exact frame_with_column. Qed.
+Theorem C15_wf_preserved_drop : forall f cols p c, wf f -> drop f cols = Ok p -> wf (fst (finish c p)).
+Proof. exact frame_drop. Qed.
+Theorem C15_wf_preserved_rename : forall f old new p c, wf f -> rename f old new = Ok p -> wf (fst (finish c p)).
+Proof. exact frame_rename. Qed.
+Theorem C15_wf_preserved_toDF : forall f names p c, wf f -> to_df f names = Ok p -> wf (fst (finish c p)).
+Proof. exact frame_to_df. Qed.
+(* all six keyed join types, any key list, duplicate column names on either side, f = g allowed *)
+Theorem C15_wf_preserved_join : forall f g how on p c,
+  wf f -> wf g -> join f g how on = Ok p -> wf (fst (finish c p)).
+Proof. exact frame_join. Qed.
+Theorem C15_wf_preserved_crossJoin : forall f g p c, wf f -> wf g -> cross_join f g = Ok p -> wf (fst (finish c p)).
+Proof. exact frame_cross_join. Qed.
+Theorem C15_wf_preserved_union : forall f g p c, wf f -> wf g -> union f g = Ok p -> wf (fst (finish c p)).
+Proof. exact frame_union. Qed.
+Theorem C15_wf_preserved_unionByName : forall f g p c, wf f -> union_by_name f g = Ok p -> wf (fst (finish c p)).
+Proof. exact frame_union_by_name. Qed.
+(* groupBy/agg, df.agg, select(aggregates) and pivot (given or computed values): the schema's
+   generated names equal the names of every output Row -- no hypothesis on the input frame *)
+Theorem C15_wf_agg_pivot : forall f keys pivot aggs p c,
+  grouped_agg f keys pivot aggs = Ok p -> wf (fst (finish c p)).
+Proof. exact frame_grouped_agg. Qed.
+Theorem C15_wf_preserved_sort : forall f keys p c, wf f -> sort f keys = Ok p -> wf (fst (finish c p)).
+Proof. exact frame_sort. Qed.
+Theorem C15_wf_preserved_limit : forall f n p c, wf f -> limit f n = Ok p -> wf (fst (finish c p)).
+Proof. exact frame_limit. Qed.
+Theorem C15_wf_preserved_distinct : forall f p c, wf f -> distinct f = Ok p -> wf (fst (finish c p)).
+Proof. exact frame_distinct. Qed.
+(* for every per-element sampler decision (Bernoulli: 0/1, Poisson: any multiplicity) *)
+Theorem C15_wf_preserved_sample : forall mult f p c, wf f -> sample_with mult f = Ok p -> wf (fst (finish c p)).
+Proof. exact frame_sample. Qed.
+Theorem C15_wf_preserved_repartition : forall f cols p c, wf f -> repartition f cols = Ok p -> wf (fst (finish c p)).
+Proof. exact frame_repartition. Qed.
+
+(* ---- every DataFrame reachable by ANY program (any length, any sharing of intermediate frames,
+        the frames built before a step raises included) is well-formed ---- *)
+Theorem C15_wf_chain : forall prog c,
+  Forall instr_rect prog -> Forall wf (fst (run_prog [] c prog)).
+Proof. exact wf_chain_lemma. Qed.
+
+(* what the check observes of such a frame *)
+Theorem C15_wf_observed : forall f, wf f ->
+  snames f = columns f /\
+  (forall r, In r (collect f) -> fst r = columns f /\ length (snd r) = length (columns f)).
+Proof. exact wf_observed. Qed.
+
+(* ---- count() = number of collected rows, for every partitioning of the frame's RDD ---- *)
 Theorem C15_count_collect : forall f parts,
   concat parts = rows f -> rdd_count parts = Z.of_nat (length (collect f)).
 Proof. exact count_collect_parts. Qed.
+(* df.rdd is the RDD collect() reads: same rows, each carrying the frame's field names *)
+Theorem C15_rdd_same_rows : forall f parts, wf f -> concat parts = rows f ->
+  concat parts = collect f /\ Forall (row_ok (columns f)) (concat parts).
+Proof. exact rdd_same_rows_parts. Qed.
+
+(* ---- name-level effect of the operations whose defects were repaired ---- *)
+(* semi / anti joins declare only the key and the other left columns (fix 7a47d84) *)
+Theorem C15_semi_anti_columns : forall f g how on lon ron pfs,
+  (how = JSemi \/ how = JAnti) ->
+  mapM (first_named (fields f)) on = Ok lon -> mapM (first_named (fields g)) on = Ok ron ->
+  merge_schemas f g how on = Ok pfs ->
+  map pname pfs = on ++ map fname (filter (not_in lon) (fields f)).
+Proof. exact semi_anti_columns. Qed.
+Theorem C15_join_columns : forall f g how on lon ron p,
+  mapM (first_named (fields f)) on = Ok lon -> mapM (first_named (fields g)) on = Ok ron ->
+  join f g how on = Ok p -> map pname (p_fields p) = join_names f g how on lon ron.
+Proof. exact join_columns. Qed.
+(* withColumn replaces in place or appends (fix aaa3884) *)
+Theorem C15_withColumn_columns : forall f n e p,
+  wf f -> with_column f n e = Ok p ->
+  map pname (p_fields p) = if mem_name n (snames f) then columns f else columns f ++ [n].
+Proof. exact with_column_columns. Qed.
+(* generated aggregate / pivot column names *)
+Theorem C15_agg_columns : forall f keys pivot aggs p pvals,
+  pivot_values f pivot = Ok pvals -> grouped_agg f keys pivot aggs = Ok p ->
+  map pname (p_fields p) = map expr_str keys ++ stat_names_schema pvals aggs.
+Proof. exact agg_columns. Qed.
+
+(* ---- non-vacuity / sanity ---- *)
+Definition kn : name := s2n "k".
+Definition vn : name := s2n "v".
+Definition tA : instr := ICreate false [kn; vn] [[VInt 1; VInt 10]; [VInt 2; VInt 20]; [VInt 2; VNone]].
+Definition tB : instr := ICreate true [kn; vn] [[VInt 2; VInt 5]; [VInt 3; VInt 7]].
+Definition cols_of (r : list frame * option string) : list (list name) * option string :=
+  (map columns (fst r), snd r).
+
+(* the hypotheses of C15_wf_chain are satisfiable by a program with a duplicate-name join, a self
+   join, generated aggregate names and a pivot; the columns are the expected ones *)
+Example chain_example :
+  Forall instr_rect [tA; tB; IJoin 0 1 JFull [kn]; IJoin 2 2 JInner [kn];
+                     IAgg 2 [ECol kn] None [mkAgg ASum (Some (EAdd (ECol kn) (ELit (VInt 1)))) None; mkAgg ACount None None];
+                     IAgg 0 [ECol kn] (Some (vn, None)) [mkAgg ACount (Some (ECol vn)) None; mkAgg AMax (Some (ECol vn)) (Some (s2n "m"))]]
+  /\ cols_of (run_prog [] 1%N [tA; tB; IJoin 0 1 JFull [kn]; IJoin 2 2 JInner [kn];
+                     IAgg 2 [ECol kn] None [mkAgg ASum (Some (EAdd (ECol kn) (ELit (VInt 1)))) None; mkAgg ACount None None];
+                     IAgg 0 [ECol kn] (Some (vn, None)) [mkAgg ACount (Some (ECol vn)) None; mkAgg AMax (Some (ECol vn)) (Some (s2n "m"))]])
+     = ([[kn; vn]; [kn; vn]; [kn; vn; vn]; [kn; vn; vn; vn; vn];
+         [kn; s2n "sum((k + 1))"; s2n "count(1)"];
+         [kn; s2n "10_count(v)"; s2n "10_m"; s2n "20_count(v)"; s2n "20_m"]], None).
+Proof.
+  split.
+  - repeat constructor. exists 2%nat. repeat constructor.
+  - vm_compute. reflexivity.
+Qed.
+
+(* left-semi join: two of the three left rows survive, with the left columns only *)
+Example semi_example :
+  map (fun f => (columns f, length (rows f))) (fst (run_prog [] 1%N [tA; tB; IJoin 0 1 JSemi [kn]; IJoin 0 1 JAnti [kn]]))
+  = [([kn; vn], 3%nat); ([kn; vn], 2%nat); ([kn; vn], 2%nat); ([kn; vn], 1%nat)].
+Proof. vm_compute. reflexivity. Qed.
+
+(* a ragged list with a list of names is not verified by createDataFrame: the second Row has two
+   field names and one value (outside the quantifier "small tables"; this is why
+   C15_wf_create_names asks for [rectangular data]) *)
+Example create_ragged_not_wf :
+  exists p, create false [kn; vn] [[VInt 1; VInt 2]; [VInt 3]] = Ok p /\
+            p_rows p = [([kn; vn], [VInt 1; VInt 2]); ([kn; vn], [VInt 3])] /\ ~ wf_pre p.
+Proof.
+  eexists. split; [vm_compute; reflexivity|]. split; [reflexivity|].
+  intros [_ H]. simpl in H. inversion H as [|? ? _ H2]; subst. inversion H2 as [|? ? [_ Hl] _]; subst.
+  simpl in Hl. discriminate.
+Qed.
